@@ -357,7 +357,7 @@ func TestVerifC27KnownCBCDirected(t *testing.T) {
 	}
 }
 
-var vf27Sizes = []int{0, 1, 2, 15, 16, 17, 31, 32, 33, 255, 256, 1<<14 - 1, 1 << 14, 1<<14 + 1, 1 << 15}
+var vf27Sizes = []int{0, 1, 2, 15, 16, 17, 31, 32, 33, 255, 256, 1<<14 - 1, 1 << 14, 1<<14 + 1, 1 << 15, 123673, 123674, 140000, 300000}
 
 func vf27GenSteps(rt *rapid.T) []vf27Step {
 	n := rapid.IntRange(1, 6).Draw(rt, "nsteps")
